@@ -35,7 +35,21 @@ def cases(draw):
         segs = [draw(st.one_of(st.sampled_from(gens.JUNK_SEGMENTS), gens.free_name(True))) for _ in range(n)]
         return {"uri": "/".join(segs).replace("?", "").replace(":", ""), "kind": kind, "x": draw(gens.free_name(True))}
     t, f = draw(gens.typed_fields(m, search_p=0.25, wide=True))
+    emptied = None
+    if draw(st.integers(0, 7)) == 0:
+        # a key that is present with an EMPTY value (free patterns accept it; get_with documents '' as a value)
+        cands = [k for k in m.keys(t) if m.accepts_value(t, k, "")]
+        if cands:
+            emptied = draw(st.sampled_from(cands))
+            f = dict(f)
+            f[emptied] = ""
     s = "/".join(f[k] for k in m.keys(t))
+    if emptied is not None:
+        if m.type_first(s)[0] is None:
+            emptied = None
+            s = "/".join(x or "x" for x in s.split("/"))
+        else:
+            return {"uri": s, "kind": kind if kind != "forced" else "typed", "x": "x", "via": "string", "emptied": emptied}
     if kind == "forced":
         sibs = [x for x in m.types if set(m.keys(x)) == set(m.keys(t))]
         return {"uri": draw(st.sampled_from(sibs)) + ":" + s, "kind": kind, "x": "x"}
@@ -144,7 +158,9 @@ def evaluate(case) -> Outcome:
     is_search = any(v in ("*", ">") for v in vals)
     deepest = max((x for x in m.types if m.basetype(x) == m.basetype(t)), key=lambda x: len(m.keys(x)))
     side = keys != m.keys(deepest)[:len(keys)]
-    out.nontrivial = is_search or side or len(keys) >= 5
+    out.nontrivial = is_search or side or len(keys) >= 5 or bool(case.get("emptied"))
+    if case.get("emptied"):
+        out.label("empty-value")
     if is_search:
         out.label("search")
     if side:
